@@ -32,7 +32,7 @@ ASSUMPTIONS = [
 TRUSTED_EXTRA = ['numpy fancy indexing / boolean masks / argmax / argmin / unique semantics as mirrored in Model.Cluster '
                  '(compared on every case)']
 
-USE_MODEL = False
+USE_MODEL = True
 
 ENTRY_KINDS = ('kcenters', 'KCenters.fit', 'kmedoids', 'KMedoids.fit', 'pam_update', 'hybrid',
                'KHybrid.fit', 'assign')
@@ -832,7 +832,22 @@ def tiny_tables(ctx, n, values=(1, 2, 3), limit=None):
                 return
 
 
+@contextlib.contextmanager
+def one_thread():
+    """the compiled kernels spin up an OpenMP team per call; on tiny arrays that costs ~100x the work
+    (thread counts are C13's subject)"""
+    from threadpoolctl import threadpool_limits
+    from enspara.geometry import libdist  # noqa: F401  (load libgomp before limiting it)
+    with threadpool_limits(limits=1, user_api='openmp'):
+        yield
+
+
 def run(ctx):
+    with one_thread():
+        _run(ctx)
+
+
+def _run(ctx):
     rng = ctx.rng
     cases = []
     for kind in ENTRY_KINDS:          # every entry point at least a few times
@@ -854,4 +869,5 @@ def run(ctx):
 
 def replay(ctx, data):
     case = {k: v for k, v in data.items()}
-    check_cases(ctx, [case])
+    with one_thread():
+        check_cases(ctx, [case])
